@@ -128,14 +128,21 @@ pub fn corrupt(d: &mut D) {
                 continue;
             }
             for extra in [1usize, 2, 3, 9, 41, 300] {
-                for _ in 0..3 {
+                for rep in 0..3 {
                     let mut q = p.clone();
                     q.extend_from_slice(&d.g.bytes(extra));
                     if crc8(&q[..q.len() - 1]) == q[q.len() - 1] {
                         let n = q.len();
                         q[n - 1] ^= 0x55;
                     }
+                    if rep == 1 {
+                        // the way a sloppy driver would do it: probe the length, then hand over the whole buffer
+                        d.get_length(5, &q[..3]);
+                    }
                     d.decode(5, &q);
+                    if rep == 2 {
+                        d.get_length(5, &q);
+                    }
                     d.process(5, &q);
                 }
                 // ... and the same length with a PEC that is right for the whole string
@@ -145,6 +152,40 @@ pub fn corrupt(d: &mut D) {
                 d.decode(5, &q);
                 d.process(5, &q);
             }
+        }
+    }
+    // every corpus packet followed by 1-3 more bytes, crafted so that the byte where the PEC of the original
+    // packet sat equals the CRC of everything but the final byte (a PEC "in the wrong place"), and the same
+    // with the original PEC left alone; the final byte is wrong in both; half of them after a length probe
+    for p in pkts.iter() {
+        for extra in 1..=3usize {
+            let mut q = p.clone();
+            q.extend_from_slice(&d.g.bytes(extra));
+            let inner = p.len() - 1;
+            let n = q.len();
+            for v in 0..=255u8 {
+                q[inner] = v;
+                if crc8(&q[..n - 1]) == v {
+                    break;
+                }
+            }
+            if crc8(&q[..n - 1]) == q[n - 1] {
+                q[n - 1] ^= 0x3C;
+            }
+            if extra == 2 {
+                d.get_length(5, &q[..3]);
+            }
+            d.decode(5, &q);
+            d.process(5, &q);
+            let mut q2 = p.clone();
+            q2.extend_from_slice(&d.g.bytes(extra));
+            if crc8(&q2[..n - 1]) == q2[n - 1] {
+                q2[n - 1] ^= 0x3C;
+            }
+            d.get_length(5, &q2[..3]);
+            d.decode(5, &q2);
+            d.get_length(5, &q2[..3]);
+            d.process(5, &q2);
         }
     }
     probes(d, 5, 1);
@@ -173,28 +214,68 @@ fn decode3(d: &mut D, p: &[u8], k: usize) {
     }
 }
 
+/// Decode `p` on contexts whose own address / EID are *related* to the packet (equal to its source or
+/// destination address or EID), the EID installed both through the accessors and through a processed
+/// Set Endpoint ID request (history), next to a fresh context.
+pub fn related_ctx_decodes(d: &mut D, p: &[u8]) {
+    if p.len() < 9 {
+        return;
+    }
+    for addr in [p[3] >> 1, p[0] >> 1] {
+        for eid in [p[6], p[5], addr] {
+            d.new_ctx(31, addr, &[0x7E], &[(0, [0, 0, 0x12, 0x34], [0, 0xAB])]);
+            d.decode(31, p);
+            if eid != 0 && eid != 0xFF {
+                let mut set = vec![(addr & 0x7F) << 1, 0x0F, 10, 0x23, 0x01, addr, 0x11, 0xC8, 0x00, 0x80, 0x01, 0x00, eid, 0];
+                fix_pec(&mut set);
+                d.process(31, &set);
+            } else {
+                d.ex(json!({"op":"set_eid","ctx":31,"half":"req","eid":eid}));
+                d.ex(json!({"op":"set_eid","ctx":31,"half":"resp","eid":eid}));
+            }
+            d.decode(31, p);
+            d.process(31, p);
+        }
+    }
+}
+
 /// C09: one-field-at-a-time and multi-field mutations of valid packets, valid and invalid PECs.
 pub fn mutate(d: &mut D) {
     d.std_ctxs();
     let pkts = corpus(d, 1, 0x23);
     let mut k = 0usize;
+    for p in pkts.iter() {
+        related_ctx_decodes(d, p);
+        let mut q = p.clone();
+        q[6] = q[3] >> 1; // source EID = source address, as in every packet the library emits
+        q[5] = q[0] >> 1;
+        fix_pec(&mut q);
+        related_ctx_decodes(d, &q);
+    }
     // every value of each byte 4..=12 (header version/reserved, EIDs, flags, type, control header,
     // command, completion code / first data byte), PEC recomputed and PEC left stale
     for (pi, p) in pkts.iter().enumerate() {
         let quick_skip = !d.thorough && pi % 3 != 0 && pi > 8;
-        for idx in 4..=12usize {
-            if idx >= p.len() - 1 {
-                continue;
-            }
+        let mut idxs: Vec<usize> = (0..=12usize).filter(|i| *i < p.len() - 1).collect();
+        if p.len() > 15 {
+            idxs.push(p.len() - 2);
+            idxs.push(p.len() - 3);
+        }
+        for idx in idxs {
             for v in 0..=255u16 {
                 if quick_skip && v % 8 != (pi as u16 % 8) {
                     continue;
                 }
                 let mut q = p.clone();
                 q[idx] = v as u8;
-                if d.g.chance(1, 8) {
+                // stale PEC: always for the bytes the decoder does not look at (their only effect is on the
+                // PEC), one in eight elsewhere; decoded on the context the packet is addressed to as well
+                if idx < 4 || d.g.chance(1, 8) {
                     k += 1;
-                    decode3(d, &q, k); // stale PEC
+                    decode3(d, &q, k);
+                    if idx < 4 && v % 4 == 0 {
+                        d.decode(0, &q);
+                    }
                 }
                 fix_pec(&mut q);
                 k += 1;
@@ -507,6 +588,57 @@ pub fn forge(d: &mut D) {
             d.process(6, &p);
         }
     }
+    // realistic addressing: once an EID is assigned, requests are addressed to that EID (destination EID
+    // field = assigned EID, SMBus destination = the endpoint's address); requesters whose own EID / address
+    // is related to the responder's
+    for eid in [0x56u8, 0x23, 0x7F, 0x01, 0xFE] {
+        let p = forge_req(d, 1, "set_endpoint_id", json!({"dst":0x23,"operation":0,"eid":eid}), 0x11, 1, 0);
+        d.process(5, &p);
+        for name in answerable.iter() {
+            for src in [0x11u8, eid & 0x7F, 0x23] {
+                let a = args_for(d, name, 0x23);
+                let iid = d.g.byte() & 0x1F;
+                let mut q = forge_req(d, 1, name, a, src, iid, 0);
+                if q.is_empty() {
+                    continue;
+                }
+                q[5] = eid; // destination EID = the EID the endpoint was given
+                if *name == "set_endpoint_id" && q[11] < 2 {
+                    q[12] = eid; // re-assigning the same EID
+                }
+                fix_pec(&mut q);
+                d.process(5, &q);
+            }
+        }
+    }
+    // every value of the control header's first byte (Rq, D, reserved, instance id) on well-formed bodies
+    for (cmd, data) in [(1u8, vec![0u8, 0x31]), (1, vec![3, 0x31]), (2, vec![]), (3, vec![]), (4, vec![0xFF]), (5, vec![]), (6, vec![1]), (7, vec![9])] {
+        for b9 in 0..=255u16 {
+            let mut q: Vec<u8> = vec![0x46, 0x0F, 0, 0x23, 0x01, 0x23, 0x11, 0xC8, 0x00, b9 as u8, cmd];
+            q.extend_from_slice(&data);
+            q.push(0);
+            q[2] = (q.len() - 4) as u8;
+            fix_pec(&mut q);
+            d.process(5, &q);
+        }
+    }
+    // pairwise special values of the header fields the processor can see
+    for (cmd, data) in [(1u8, vec![1u8, 0x44]), (2, vec![]), (3, vec![]), (5, vec![]), (6, vec![0])] {
+        for b9 in [0x80u8, 0xC0, 0xA0, 0x9F, 0xDF, 0xE0] {
+            for dst_eid in [0x00u8, 0xFF, 0x23, 0x44, 0x11] {
+                for src in [0x11u8, 0x23, 0x44, 0x7F, 0x00] {
+                    for dst_addr in [0x23u8, 0x11] {
+                        let mut q: Vec<u8> = vec![dst_addr << 1, 0x0F, 0, (src << 1) | 1, 0x01, dst_eid, src, 0xC8, 0x00, b9, cmd];
+                        q.extend_from_slice(&data);
+                        q.push(0);
+                        q[2] = (q.len() - 4) as u8;
+                        fix_pec(&mut q);
+                        d.process(5, &q);
+                    }
+                }
+            }
+        }
+    }
     // Set Endpoint ID with every EID 0x01..=0xFE, both assigning operations
     for eid in 1..=254u64 {
         for op in 0..2u64 {
@@ -557,6 +689,7 @@ pub fn forge(d: &mut D) {
 
 /// C13: random histories of processed packets, decode-only calls and accessor calls.
 pub fn history(d: &mut D) {
+    d.r.keep = true;
     d.std_ctxs();
     let runs = if d.thorough { 400 } else { 40 };
     for run in 0..runs {
@@ -565,9 +698,20 @@ pub fn history(d: &mut D) {
         let vs: Vec<(u8, [u8; 4], [u8; 2])> = (0..nv).map(|_| (0u8, [0, 0, d.g.byte(), d.g.byte()], [d.g.byte(), d.g.byte()])).collect();
         let c = 5 + (run % 2) as u64;
         d.new_ctx(c, addr, &[0x7E], &vs);
+        let mut cur_eid: u8 = 0;
         for _ in 0..200 {
-            let src = d.g.byte() & 0x7F;
+            // the requester is sometimes related to the endpoint: same address, or address = the endpoint's EID
+            let src = match d.g.below(6) {
+                0 => addr,
+                1 => cur_eid & 0x7F,
+                _ => d.g.byte() & 0x7F,
+            };
             let iid = d.g.byte() & 0x1F;
+            if let Some(last) = d.r.events.last() {
+                if let Some(v) = last["post"]["eid_resp"].as_u64() {
+                    cur_eid = v as u8;
+                }
+            }
             match d.g.below(16) {
                 0 | 1 | 2 => {
                     let eid = 1 + d.g.below(254);
@@ -691,6 +835,20 @@ pub fn vendor_enum(d: &mut D) {
                     (f, if f == 0 { [0, 0, b[2], b[3]] } else { [b[0], b[1], b[2], b[3]] }, [b[4], b[5]])
                 })
                 .collect();
+            // related sets: some configurations repeat a set or vary a single field of another one
+            let mut vs = vs;
+            if rep % 3 != 0 && n >= 2 {
+                for _ in 0..(1 + n / 4) {
+                    let i = d.g.below(n as u64) as usize;
+                    let j = if d.g.chance(1, 2) { n - 1 } else { d.g.below(n as u64) as usize };
+                    if i != j {
+                        vs[i] = vs[j];
+                        if d.g.chance(1, 2) {
+                            vs[i].2[1] = vs[i].2[1].wrapping_add(1);
+                        }
+                    }
+                }
+            }
             let addr = d.g.byte() & 0x7F;
             d.new_ctx(5, addr, &[0x7E, 0x7F], &vs);
             let ask = |d: &mut D, s: u64| -> Value {
@@ -720,6 +878,14 @@ pub fn vendor_enum(d: &mut D) {
                 order.swap(i, j);
             }
             for s in order.iter() {
+                if d.g.chance(1, 3) {
+                    // a vendor support *response* from some peer, with a selector around ours, arrives first
+                    let sel = *d.g.pick(&[*s, *s + 1, n as u64, (n as u64).saturating_sub(1), 0xFF]);
+                    let vl = *d.g.pick(&[3usize, 5, 7]);
+                    let vid = d.g.bytes(vl);
+                    let p = d.enc_resp(1, "get_vendor_defined_message_support", json!({"dst":addr,"cc":0,"selector":sel & 0xFF,"vid":jb(&vid)}));
+                    d.process(5, &p);
+                }
                 ask(d, *s);
                 if d.g.chance(1, 3) {
                     let p = forge_req(d, 1, "get_endpoint_id", json!({"dst":addr}), 0x11, 3, 0);
@@ -738,8 +904,16 @@ pub fn identity(d: &mut D) {
     d.std_ctxs();
     let reps = if d.thorough { 30 } else { 3 };
     for n in 0..=30usize {
-        for _ in 0..reps {
-            let mts = d.g.bytes(n);
+        for rep in 0..reps {
+            let mut mts = d.g.bytes(n);
+            // configured types that are also meaningful elsewhere: message type code points, query values
+            if rep % 2 == 0 {
+                for (i, t) in [0x7Eu8, 0x7F, 0x05, 0x06, 0x00, 0xFF, 0x01].iter().enumerate() {
+                    if i < mts.len() {
+                        mts[i] = *t;
+                    }
+                }
+            }
             let addr = d.g.byte() & 0x7F;
             d.new_ctx(5, addr, &mts, &[(0, [0, 0, 1, 2], [3, 4])]);
             let queries = |d: &mut D| {
@@ -752,6 +926,23 @@ pub fn identity(d: &mut D) {
                 }
             };
             queries(d); // UUID is all zero before any update
+            if n % 4 == 1 {
+                // ordered UUID histories: X, nil, X, Y, X
+                let x = d.g.bytes(16);
+                let y = d.g.bytes(16);
+                for u in [x.clone(), vec![0u8; 16], x.clone(), y, x, vec![0xFFu8; 16], vec![0u8; 16]] {
+                    d.ex(json!({"op":"set_uuid","ctx":5,"uuid":jb(&u)}));
+                    queries(d);
+                }
+            }
+            if n % 5 == 2 || n == 30 {
+                // every value of the version query byte (the configured message types among them)
+                for qb in 0..=255u16 {
+                    let mut q: Vec<u8> = vec![addr << 1, 0x0F, 9, 0x23, 0x01, addr, 0x11, 0xC8, 0x00, 0x80 | (qb as u8 & 0x1F), 0x04, qb as u8, 0];
+                    fix_pec(&mut q);
+                    d.process(5, &q);
+                }
+            }
             for _ in 0..4 {
                 match d.g.below(5) {
                     0 => {
